@@ -319,7 +319,7 @@ class Interp:
             o = self.hget(st, v)
             if isinstance(o, HInst):
                 return o.cls
-            return {"list": "list", "dict": "dict", "symmap": "dict", "symlist": "list", "abstract": "dict"}[o.kind]
+            return {"list": "list", "dict": "dict", "symmap": "dict", "symlist": "list", "abstract": "dict", "set": "set"}[o.kind]
         if isinstance(v, ExcVal):
             return v.cls
         if isinstance(v, bool) or is_symbool(v):
@@ -807,7 +807,7 @@ class Interp:
         if isinstance(v, ExcVal):
             if attr == "args":
                 return [("val", v.args, st)]
-        if isinstance(v, (str, bytes, int, tuple, SymBytes, SymSeq, frozenset)) or is_sym(v):
+        if isinstance(v, (str, bytes, int, tuple, SymBytes, SymSeq, frozenset)) or is_sym(v) or type(v).__name__ in ("SymChar", "LoweredSeq"):
             return [("val", BuiltinVal(f"{self.class_of(v, st)}.{attr}", v), st)]
         if isinstance(v, Opaque):
             return [("val", BuiltinVal(f"opaque.{attr}", v), st)]
